@@ -85,6 +85,9 @@ func (bucket *Bucket) _closeSqliteDB() {
 // Closes a bucket and deletes its directory and files (unless it's in-memory.)
 func (bucket *Bucket) CloseAndDelete(ctx context.Context) (err error) {
 	verifPoint("closedelete.enter", bucket.name)
+	// Stop the expiry manager before taking the bucket mutex: its callback holds the expiry mutex while it
+	// takes the bucket mutex, so stopping it with the bucket mutex held would deadlock against a running callback.
+	bucket.expManager.stop()
 	bucket.mutex.Lock()
 	defer bucket.mutex.Unlock()
 	verifPoint("closedelete.locked", bucket.name)
